@@ -39,6 +39,8 @@ def dig_cfg(part, muts=1, emit=True):
 
 
 def check(pid, tier, replay=None):
+    if replay:
+        return vlib.replay_observation(pid, "DigestContractTrace", replay)
     t0 = time.time()
     sd = vlib.seed()
     rng = random.Random(sd)
